@@ -12,6 +12,15 @@ theorem pres_refs {s s' : St} {a : Act} (hI : Inv s) (h : step .repaired s a = s
   | fire t0 =>
     simp only [step] at h
     (repeat' (split at h)) <;> (try cases h) <;> (simp only [St.setPc, St.setObj]; (have i_refs := hI.refs; have i_stObj := hI.stObj; grind [PC.ref]))
+  | corrupt d =>
+    simp only [step] at h
+    (repeat' (split at h)) <;> (try cases h) <;> (simp only []; (have i_refs := hI.refs; have i_stObj := hI.stObj; grind [PC.ref]))
+  | block d =>
+    simp only [step] at h
+    (repeat' (split at h)) <;> (try cases h) <;> (simp only []; (have i_refs := hI.refs; have i_stObj := hI.stObj; grind [PC.ref]))
+  | repair d =>
+    simp only [step] at h
+    (repeat' (split at h)) <;> (try cases h) <;> (simp only []; (have i_refs := hI.refs; have i_stObj := hI.stObj; grind [PC.ref]))
   | run t0 =>
     simp only [step] at h
     split at h
